@@ -88,6 +88,68 @@ class Result:
 EMATCH = {"smt.mbqi": False, "auto_config": False}   # pure E-matching: measured 10x faster on these VCs
 
 
+def export_query(assumptions, goal):
+    """the query as one AstVector-free list translated into a FRESH z3 context: the verdict of a query then does not
+    depend on which other queries the process has built or solved before (measured: the same obligation 0.0 s `unsat`
+    alone, `unknown` after 115 s when a dozen others had been discharged in the same context).  Must be called from the
+    thread that owns the main context; the result may be solved in any thread."""
+    ctx = z3.Context()
+    return ctx, [a.translate(ctx) for a in assumptions] + [z3.Not(goal).translate(ctx)]
+
+
+def check_exported(query, timeout_ms=10000, config=EMATCH) -> Result:
+    ctx, forms = query
+    s = z3.Solver(ctx=ctx)
+    for k, v in (config or {}).items():
+        s.set(k, v)
+    s.set("rlimit", int(timeout_ms * 2000))
+    s.set("timeout", int(timeout_ms * 4))
+    for a in forms:
+        s.add(a)
+    t0 = time.time()
+    r = s.check()
+    dt = time.time() - t0
+    if r == z3.unsat:
+        return Result("unsat", dt, "z3")
+    if r == z3.sat:
+        return Result("sat", dt, "z3")
+    return Result("unknown", dt, "z3", reason=s.reason_unknown())
+
+
+def export_tracked(assumptions, goal):
+    """like export_query, every distinct assumption under its own tracking literal (for unsat cores)"""
+    ctx = z3.Context()
+    seen = set()
+    items = []
+    for i, a in enumerate(assumptions):
+        if a.get_id() in seen:
+            continue
+        seen.add(a.get_id())
+        items.append((i, a.translate(ctx)))
+    return ctx, items, z3.Not(goal).translate(ctx)
+
+
+def core_exported(tracked, timeout_ms=10000, config=EMATCH, seed=0):
+    """indices (into the assumption list given to export_tracked) of an unsat core, or None"""
+    ctx, items, neg = tracked
+    s = z3.Solver(ctx=ctx)
+    for k, v in (config or {}).items():
+        s.set(k, v)
+    if seed:
+        s.set("random_seed", seed)
+    s.set("rlimit", int(timeout_ms * 2000))
+    s.set("timeout", int(timeout_ms * 4))
+    lits = {}
+    for i, a in items:
+        p = z3.Bool(f"trk!{i}", ctx)
+        lits[str(p)] = i
+        s.assert_and_track(a, p)
+    s.add(neg)
+    if s.check() != z3.unsat:
+        return None
+    return sorted(lits[str(c)] for c in s.unsat_core())
+
+
 def check_valid(assumptions, goal, timeout_ms=10000, want_model=False, config=EMATCH) -> Result:
     """Is  /\\ assumptions => goal  valid?  unsat = valid."""
     s = z3.Solver()
